@@ -561,7 +561,8 @@ pub enum Outcome {
     EncodePanic(String, String),
     DecodeErr(String),
     DecodePanic(String, String),
-    Ok { bytes: Vec<u8>, forest: Vec<CNode> },
+    /// `entry_points`: disagreements between the public entry points that should be equivalent
+    Ok { bytes: Vec<u8>, forest: Vec<CNode>, entry_points: Vec<String> },
 }
 
 pub fn binary_encode(r: &Realised, roots: &[Ref], c: Compression) -> Result<Result<Vec<u8>, String>, (String, String)> {
@@ -591,7 +592,32 @@ pub fn binary_roundtrip(plan: &Plan, how: How, c: Compression, mode: FloatMode) 
         Ok(Err(e)) => Outcome::DecodeErr(e),
         Ok(Ok(dom2)) => {
             let forest = canon_forest(&dom2, dom2.root().children(), mode);
-            Outcome::Ok { bytes, forest }
+            let mut entry_points = Vec::new();
+            // the builder API and the convenience functions are documented as the same thing
+            let via_builder = crate::evidence::guarded(|| rbx_binary::Deserializer::new().deserialize(bytes.as_slice()).map_err(|e| e.to_string()));
+            match via_builder {
+                Ok(Ok(d3)) => {
+                    if canon_forest(&d3, d3.root().children(), mode) != forest {
+                        entry_points.push("Deserializer::new().deserialize and from_reader decode the same bytes differently".to_owned());
+                    }
+                }
+                _ => entry_points.push("Deserializer::new().deserialize fails on bytes from_reader accepts".to_owned()),
+            }
+            if c == Compression::Lz4 {
+                let conv = crate::evidence::guarded(|| {
+                    let mut out = Vec::new();
+                    rbx_binary::to_writer(&mut out, &r.dom, &roots).map(|_| out).map_err(|e| e.to_string())
+                });
+                match conv {
+                    Ok(Ok(b2)) => {
+                        if b2 != bytes {
+                            entry_points.push("rbx_binary::to_writer and Serializer::new() with the default compression write different bytes".to_owned());
+                        }
+                    }
+                    _ => entry_points.push("rbx_binary::to_writer fails where the Serializer builder succeeds".to_owned()),
+                }
+            }
+            Outcome::Ok { bytes, forest, entry_points }
         }
     }
 }
@@ -637,7 +663,38 @@ pub fn xml_roundtrip(plan: &Plan, how: How, mode: XmlMode, fmode: FloatMode) -> 
         Ok(Err(e)) => Outcome::DecodeErr(e),
         Ok(Ok(dom2)) => {
             let forest = canon_forest(&dom2, dom2.root().children(), fmode);
-            Outcome::Ok { bytes, forest }
+            let mut entry_points = Vec::new();
+            let same = |d: Result<Result<rbx_dom_weak::WeakDom, String>, (String, String)>, what: &str, entry_points: &mut Vec<String>| match d {
+                Ok(Ok(d3)) => {
+                    if canon_forest(&d3, d3.root().children(), fmode) != forest {
+                        entry_points.push(format!("{} and from_reader decode the same document differently", what));
+                    }
+                }
+                _ => entry_points.push(format!("{} fails on a document from_reader accepts", what)),
+            };
+            if let Ok(text) = std::str::from_utf8(&bytes) {
+                let (_, o) = xml_options(mode);
+                same(crate::evidence::guarded(|| rbx_xml::from_str(text, o).map_err(|e| e.to_string())), "from_str", &mut entry_points);
+                if mode == XmlMode::Default {
+                    same(crate::evidence::guarded(|| rbx_xml::from_str_default(text).map_err(|e| e.to_string())), "from_str_default", &mut entry_points);
+                }
+            }
+            if mode == XmlMode::Default {
+                same(crate::evidence::guarded(|| rbx_xml::from_reader_default(bytes.as_slice()).map_err(|e| e.to_string())), "from_reader_default", &mut entry_points);
+                let conv = crate::evidence::guarded(|| {
+                    let mut out = Vec::new();
+                    rbx_xml::to_writer_default(&mut out, &r.dom, &roots).map(|_| out).map_err(|e| e.to_string())
+                });
+                match conv {
+                    Ok(Ok(b2)) => {
+                        if b2 != bytes {
+                            entry_points.push("to_writer_default and to_writer with default options write different documents".to_owned());
+                        }
+                    }
+                    _ => entry_points.push("to_writer_default fails where to_writer succeeds".to_owned()),
+                }
+            }
+            Outcome::Ok { bytes, forest, entry_points }
         }
     }
 }
